@@ -13,6 +13,10 @@ def install(ex):
     ex.summaries["(*sync.Once).Do"] = once_do
     ex.summaries["math/bits.Add32"] = lambda ex_, path, a: addsub_w(ex_, path, a, 32, False)
     ex.summaries["math/bits.Sub32"] = lambda ex_, path, a: addsub_w(ex_, path, a, 32, True)
+    for nm in ("(*sync.Mutex).Lock", "(*sync.RWMutex).Lock", "(*sync.RWMutex).RLock"):
+        ex.summaries[nm] = lambda ex_, path, a: path.log.append(("lock", a[0].obj, a[0].path)) or None
+    for nm in ("(*sync.Mutex).Unlock", "(*sync.RWMutex).Unlock", "(*sync.RWMutex).RUnlock"):
+        ex.summaries[nm] = lambda ex_, path, a: path.log.append(("unlock", a[0].obj, a[0].path)) or None
     ex.summaries["(*sync.Pool).Get"] = pool_get
     ex.summaries["(*sync.Pool).Put"] = pool_put
 
